@@ -488,7 +488,7 @@ def rule_diag_columns_scalar(eng, rep):
     # columns that to_dataframe skips unless asked
     optional = set()
     for node in eng.prog.own_nodes(tdf):
-        if isinstance(node, ast.Compare) and len(node.ops) == 1 and isinstance(node.ops[0], ast.Eq):
+        if isinstance(node, ast.Compare) and len(node.ops) == 1 and isinstance(node.ops[0], (ast.Eq, ast.NotEq)):
             for side in (node.left, node.comparators[0]):
                 if isinstance(side, ast.Constant) and isinstance(side.value, str):
                     optional.add(side.value)
